@@ -448,7 +448,12 @@ BREAKING = [
     ("readers: only UnicodeDecodeError converted", "cutplace/rowio.py",
      "        except (csv.Error, UnicodeError) as error:", "        except (csv.Error, UnicodeDecodeError) as error:", ["C10"]),
     ("tokens: a lone surrogate (UnicodeEncodeError) not converted", "cutplace/_tools.py",
-     "    except (SyntaxError, UnicodeError) as error:", "    except (SyntaxError, UnicodeDecodeError) as error:", ["C10"]),
+     "    except (SyntaxError, UnicodeError, SystemError) as error:", "    except (SyntaxError, UnicodeDecodeError, SystemError) as error:", ["C10"]),
+    ("tokens: SystemError of the 3.12 tokenizer not converted", "cutplace/_tools.py",
+     "    except (SyntaxError, UnicodeError, SystemError) as error:", "    except (SyntaxError, UnicodeError) as error:", ["C10"]),
+    ("writers: only UnicodeEncodeError converted", "cutplace/rowio.py",
+     '            self._target_stream.write("".join(row_to_write))\n        except UnicodeError as error:',
+     '            self._target_stream.write("".join(row_to_write))\n        except UnicodeEncodeError as error:', ["C10"]),
     ("fixed cells: every white space stripped, not only blanks", "cutplace/fields.py",
      '            possibly_stripped_value = value.strip(" ")', "            possibly_stripped_value = value.strip()", ["C03", "C20"]),
     ("DistinctCount: names in the count expression not looked at", "cutplace/checks.py",
